@@ -166,3 +166,32 @@ func VerifH_C17_api_truncate_dense() {
 		vrt.Assert(len(cut.vals) == len(intact.vals), "values-silently-missing")
 	}
 }
+
+// verifDenseFile builds a file with one dataset carrying 9 attributes (dense storage) and returns the dataset's header
+// address and the addresses of the fractal heap and the name index.
+func verifDenseFile(name string) (hdr, heap, btree uint64) {
+	fw, err := CreateForWrite(name, CreateTruncate)
+	vrt.AssertNoErr(err, "create-ok")
+	a, err := fw.CreateDataset("/a", Int32, []uint64{1})
+	vrt.AssertNoErr(err, "create-a-ok")
+	vrt.AssertNoErr(a.Write([]int32{7}), "write-a-ok")
+	for i, n := range []string{"n0", "n1", "n2", "n3", "n4", "n5", "n6", "n7", "n8"} {
+		vrt.AssertNoErr(a.WriteAttribute(n, int32(i)), "attr-ok")
+	}
+	hdr = a.address
+	vrt.AssertNoErr(fw.Close(), "close-ok")
+	f, err := Open(name)
+	vrt.AssertNoErr(err, "intact-open-ok")
+	oh, err := core.ReadObjectHeader(f.osFile, hdr, f.sb)
+	vrt.AssertNoErr(err, "header-read-ok")
+	for _, m := range oh.Messages {
+		if m.Type == core.MsgAttributeInfo {
+			ai, err := core.ParseAttributeInfoMessage(m.Data, f.sb)
+			vrt.AssertNoErr(err, "attrinfo-parse-ok")
+			heap, btree = ai.FractalHeapAddr, ai.BTreeNameIndexAddr
+		}
+	}
+	_ = f.Close()
+	vrt.Assert(heap != 0 && btree != 0, "dense-storage-in-use")
+	return hdr, heap, btree
+}
